@@ -75,8 +75,45 @@ A(E("q", "mp4a_esds", "Mp4aBox", "any_mp4a(true)", "ref_mp4a", 36 + 39, 6))
 A(E("q", "mp4a_noesds", "Mp4aBox", "any_mp4a(false)", "ref_mp4a", 36, 6))
 
 
+# containers: size identity (header + children), own type code, children in wire order
+A(E("q", "edts_v0_e1", "EdtsBox", "any_edts::<1>(0)", "ref_edts", 8 + 16 + 12, 5))
+A(E("t", "edts_v1_e2", "EdtsBox", "any_edts::<2>(1)", "ref_edts", 8 + 16 + 40, 6))
+A(E("q", "mvex_trex", "MvexBox", "any_mvex(None)", "ref_mvex", 8 + 32, 5))
+A(E("q", "mvex_mehd1_trex", "MvexBox", "any_mvex(Some(1))", "ref_mvex", 8 + 20 + 32, 6))
+A(E("q", "traf_tfhd", "TrafBox", "any_traf::<0>(None, false)", "ref_traf", 8 + 20, 5))
+A(E("q", "traf_tfhd_tfdt1_trun1", "TrafBox", "any_traf::<1>(Some(1), true)", "ref_traf", 8 + 20 + 20 + 28, 12))
+A(E("q", "moof_t0", "MoofBox", "any_moof::<0>()", "ref_moof", 8 + 16, 5))
+A(E("q", "moof_t2", "MoofBox", "any_moof::<2>()", "ref_moof", 8 + 16 + 2 * 28, 7))
+A(E("q", "moov_mvhd", "MoovBox", "any_moov_trackless(false)", "ref_moov", 8 + 108, 27))
+A(E("q", "moov_mvhd_mvex", "MoovBox", "any_moov_trackless(true)", "ref_moov", 8 + 108 + 40, 27))
+A(E("q", "udta_empty", "UdtaBox", "any_udta_empty()", "ref_udta", 8, 4))
+A(E("q", "stsd_mp4a", "StsdBox", "any_stsd_mp4a()", "ref_stsd", 16 + 36, 7))
+A(E("q", "stsd_tx3g", "StsdBox", "any_stsd_tx3g()", "ref_stsd", 16 + 46, 15))
+
+# Vec<u32>/Vec<u64>/Vec<FourCC> equality is a memcmp over the bytes: the unwind bound must cover it
+for e in LEAVES:
+    n = e["name"]
+    import re as _re
+    m = _re.search(r"_(?:e|b|n)(\d)$", n)
+    if m and e["ty"] in ("StssBox", "StcoBox", "Co64Box", "FtypBox", "StszBox", "TrunBox"):
+        e["unwind"] = max(e["unwind"], 8 * int(m.group(1)) + 3)
+    if e["ty"] in ("FtypBox", "HdlrBox"):
+        e["unwind"] = max(e["unwind"], 6)  # FourCC == FourCC is a 4-byte memcmp
+
+
 def nb(e):
     return e["size"] + 8
+
+
+def decoder_types():
+    """(type, buffer bytes, unwind) per decoder for the arbitrary-bytes families: the buffer holds the
+    largest enumerated shape of that type plus 8 bytes."""
+    out = {}
+    for e in LEAVES:
+        t = e["ty"]
+        cur = out.get(t, (0, 0))
+        out[t] = (max(cur[0], e["size"] + 8), max(cur[1], e["unwind"]))
+    return out
 
 
 if __name__ == "__main__":
